@@ -70,7 +70,7 @@ def content_files(rng, tier):
 NAMED = ["sp ace.txt", "q?.txt", "a|b.txt", "per%cent.txt", "per%41.txt", "#frag.txt", "am&p.txt", "semi;colon.txt",
          "a+b.txt", "\xae.txt", "caf\xc3\xa9.txt", "UPPER.TXT", "noext", ".hidden", "arch.tar.gz", "x.tgz",
          "doc.txt.bz2", "pic.GIF", "page.html", "colon:name.txt", "eq=ual.txt", "at@sign.txt", "tilde~.txt",
-         "quote'\".txt", "lt<gt>.txt", "weird.\xe2\x84\xaa", "two.dots.png", "x.svgz", "trailing.", "a.Z",
+         "paper.ps.Z", "old.tar.Z", "lower.txt.z", "quote'\".txt", "lt<gt>.txt", "weird.\xe2\x84\xaa", "two.dots.png", "x.svgz", "trailing.", "a.Z",
          "data.json", "nul.bin"]
 
 
@@ -161,6 +161,26 @@ def wml_decode(text):
     return lines
 
 
+def twin_guess(sel, T):
+    """Independent reading of the documented lookup: suffix aliases (case-insensitive), then one
+    encoding suffix (case-SENSITIVE), then the type of the remaining suffix (case-insensitive),
+    standard types before common ones.  T: dict of dicts (documented tables)."""
+    import posixpath
+    base, ext = posixpath.splitext(sel)
+    n = 0
+    while ext.lower() in T["suffix"] and n < 8:
+        base, ext = posixpath.splitext(base + T["suffix"][ext.lower()])
+        n += 1
+    enc = None
+    if ext in T["enc"]:
+        enc = T["enc"][ext]
+        base, ext = posixpath.splitext(base)
+    ext = ext.lower()
+    if ext in T["strict"]:
+        return (T["strict"][ext], enc)
+    return (T["common"].get(ext), enc)
+
+
 def expected_type(guess, default, decompressors=None, tal=False):
     """the documented precedence, from the real mimetypes answer for the name"""
     ty, enc = guess
@@ -215,11 +235,27 @@ def run(tier):
         sx_in.append("".join(rng.choice(sx_alpha) for _ in range(rng.randrange(1, 9))))
     res = impl_run([{"op": "c04_escape", "inputs": esc_in}, {"op": "c04_dec", "inputs": [str(n) for n in dec_in]},
                     {"op": "c04_splitext", "inputs": sx_in}, {"op": "c04_tables"},
-                    {"op": "c04_tables", "config": FULL_CONFIG}])
+                    {"op": "c04_tables", "config": FULL_CONFIG}, {"op": "c04_documented"},
+                    {"op": "c04_documented", "config": FULL_CONFIG}])
     for r in res:
         if not r["ok"]:
             raise RuntimeError(r["err"] + "\n" + r.get("tb", ""))
-    esc_out, dec_out, sx_out, tables, tables_full = [r["res"] for r in res]
+    esc_out, dec_out, sx_out, live, live_full, doc, doc_full = [r["res"] for r in res]
+    # The tables the model and the search use are the DOCUMENTED ones (fresh mimetypes + the configured
+    # files + the [pygopherd] encoding option as written); what init_mimetypes left in the running
+    # interpreter (`live`) is compared with them below.
+    TABS = ("suffix_map", "encodings_map", "types_strict", "types_common")
+    tables = dict(live, **{k: doc[k] for k in TABS})
+    tables_full = dict(live_full, **{k: doc_full[k] for k in TABS})
+    T = {"suffix": dict(doc["suffix_map"]), "enc": dict(doc["encodings_map"]), "strict": dict(doc["types_strict"]),
+         "common": dict(doc["types_common"])}
+    table_diffs = {}
+    for lv, dc, nm in ((live, doc, "default"), (live_full, doc_full, "full")):
+        for k in TABS:
+            a, b = dict(lv[k]), dict(dc[k])
+            if a != b:
+                table_diffs[f"{nm}:{k}"] = {"only_in_running_interpreter": sorted(set(a.items()) - set(b.items()))[:12],
+                                           "only_in_documented": sorted(set(b.items()) - set(a.items()))[:12]}
     cases = ["((%s, %s), (%s, %s))" % (coq_bool(q), coq_str(s), coq_str(e), coq_str(u))
              for (q, s), (e, u) in zip(esc_in, esc_out)]
     m1, e1, n1 = coq_eval("C04", "k_escape", "Lib.Str Corr.K04", "chk_escape", cases, shard=800)
@@ -260,6 +296,7 @@ def run(tier):
                      for k, _ in tables[tab])
     exts = sorted(set(k for k, _ in tables["types_strict"]) | set(k for k, _ in tables["types_common"]))
     encs = [""] + [k for k, _ in tables["encodings_map"]]
+    enc_keys = sorted(set(encs[1:]) | set(k for k, _ in live["encodings_map"]))
     sufs = [k for k, _ in tables["suffix_map"]]
 
     def variants(e):
@@ -282,6 +319,9 @@ def run(tier):
     for s in sufs:
         for v in variants(s):
             names += ["/a" + v, "/a.b" + v, "/a" + v + ".gz"]
+    for k in enc_keys:                 # every encoding suffix, as configured and in the other cases
+        for stem in ("/paper.ps", "/old.tar", "/a.txt", "/noext", "/x.html"):
+            names += [stem + k, stem + k.upper(), stem + k.lower(), stem + k.swapcase()]
     names += ["/", "/noext", "/.hidden", "/.hidden.txt", "/a.", "/a..", "/a..txt", "/d.txt/x", "/a.txt/", "/a.TXT.GZ",
               "/a.tar.gz.bz2", "/a.gz", "/a.gz.gz", "/.gz", "/a.txt.Z", "/a.txt.z", "/a.tal", "/a.html.tal",
               "/a.Kml", "/a.K", "/a.tİf", "/a.é", "/a.txt\n", "/a b.txt", "/a.txt ", "/a.tXt",
@@ -310,6 +350,8 @@ def run(tier):
     m5 = [fm_idx[i] for i in m5]
     for n, g in zip(names, guess_out):
         chk.count(("mime", n), nontrivial=(g[0] is not None or g[1] is not None))
+    if table_diffs:
+        kbroken.append(("K04 init_mimetypes establishes the documented tables", table_diffs))
     if not (mapping_ok and keys_ascii):
         kbroken.append(("K04 assumptions about the shipped tables", {"mapping_is_shipped": mapping_ok,
                                                                      "table_keys_ascii": keys_ascii}))
@@ -319,12 +361,19 @@ def run(tier):
         kbroken.append(("K04 populatefromfs MIME attributes", {"mismatches": [[names[i], fm_out[i]] for i in m5[:10]],
                                                                "error": e5}))
     # direct statement: the entry's type follows the documented precedence from the table answer
+    nprec = 0
     for n, g, (m, e, em, ty) in zip(names, guess_out, fm_out):
-        want = expected_type(tuple(g), tables["default_mimetype"])
+        dg = twin_guess(n, T)
+        want = expected_type(dg, tables["default_mimetype"])
         if m != want:
             found = True
-            chk.violation({"what": "populatefromfs does not give the table type its documented precedence",
-                           "selector": n, "guess_type": g, "entry_mimetype": m, "expected": want}, tag="mime-precedence")
+            nprec += 1
+            if nprec <= 12:
+                chk.violation({"what": "the entry's MIME type is not the one the configured tables assign to the name "
+                                       "(documented precedence: encoding suffix, case-sensitive => application/octet-stream; "
+                                       "known suffix => its type; else the default)",
+                               "selector": n, "documented_lookup": list(dg), "running_guess_type": g, "entry_mimetype": m,
+                               "entry_encoding": e, "expected": want, "kind": "mime"}, tag="mime-precedence")
     cov["correspondence"] = {"escape_cases": len(esc_in), "decimal_cases": len(dec_in), "splitext_cases": len(sx_in),
                              "mime_names": len(names), "mime_exhaustive_over_extensions": len(exts),
                              "encodings": encs[1:], "shards": n1 + n2 + n3 + n4 + n5}
@@ -359,18 +408,18 @@ def run(tier):
             out.append((proto, "HEAD", data.replace(b"GET ", b"HEAD ", 1), tls))
         return out
 
-    plan = {"default": [], "full": []}       # (path, data, special, proto, method, request bytes, tls)
+    plan = {"default": [], "full": [], "live": []}       # (path, data, special, proto, method, request bytes, tls)
     for p, d in files:
         for q in reqs_for(p, GET_PROTOS, HEAD_PROTOS):
             plan["default"].append((p, d, None) + q)
-    for q in reqs_for("big/big.bin", GET_PROTOS, []):
+    for q in reqs_for("big/big.bin", ["gopher", "gopherplus", "http", "gemini", "spartan"], []):
         plan["default"].append(("big/big.bin", big, None) + q)
     full_files = [(p, d) for p, d in files if p in ("s/b0.bin", "s/b4096.bin", "s/b4097.bin", "s/b12289.bin", "s/t4097.txt",
                                                     "t/inv.txt", "n/page.html", "n/sp ace.txt", "n/q?.txt")]
     for p, d in full_files:
         for q in reqs_for(p, GET_PROTOS, HEAD_PROTOS):
             plan["full"].append((p, d, None) + q)
-    for q in reqs_for("big/big.bin", ["gopherplus", "https", "spartan"], []):
+    for q in reqs_for("big/big.bin", ["gopherplus"], []):
         plan["full"].append(("big/big.bin", big, None) + q)
     for p, d, sp in special:
         for q in reqs_for(p, GET_PROTOS, HEAD_PROTOS):
@@ -379,11 +428,21 @@ def run(tier):
         for q in reqs_for(p, ["gopherplus", "http", "gemini"], []):
             plan["default"].append((p, d, None) + q)
 
+    # the real ThreadingTCPServer on a socket, TLS requests through a real TLS client: what the
+    # in-process transport cannot show (anything that depends on the descriptor under a TLS stream)
+    live_files = [(p, d) for p, d in files if p in ("s/b1.bin", "s/b4095.bin", "s/b4096.bin", "s/b4097.bin", "s/b8193.bin",
+                                                    "s/b12289.bin", "s/t4097.txt", "t/inv.txt", "n/sp ace.txt")]
+    for p, d in live_files:
+        for q in reqs_for(p, GET_PROTOS, ["https"]):
+            plan["live"].append((p, d, None) + q)
+    for q in reqs_for("big/big.bin", ["sgopher", "sgopherplus", "https", "gemini"], []):
+        plan["live"].append(("big/big.bin", big, None) + q)
+    CONFIGS = (("default", None, "c04_world"), ("full", FULL_CONFIG, "c04_world"), ("live", None, "c04_live"))
     jobs = []
-    for cfgname, cfg in (("default", None), ("full", FULL_CONFIG)):
-        jobs.append({"op": "c04_world", "tree": tree, "config": cfg,
+    for cfgname, cfg, op in CONFIGS:
+        jobs.append({"op": op, "tree": tree, "config": cfg,
                      "requests": [{"data": gen.lat(x[5]), "tls": x[6]} for x in plan[cfgname]]})
-    wres = impl_run_parallel(jobs, chunks=2)
+    wres = impl_run_parallel(jobs, chunks=3)
     for r in wres:
         if not r["ok"]:
             raise RuntimeError(r["err"] + "\n" + r.get("tb", ""))
@@ -391,12 +450,12 @@ def run(tier):
     gres = impl_run([{"op": "c04_guess", "inputs": sel_guess_names}])
     if not gres[0]["ok"]:
         raise RuntimeError(gres[0]["err"])
-    sel_guess = {n: tuple(g) for n, g in zip(sel_guess_names, gres[0]["res"])}
+    sel_guess = {n: twin_guess(n, T) for n in sel_guess_names}
 
     tick("impl-worlds")
     decomp = {"gzip": "zcat"}
     records = []      # dicts, one per request
-    for (cfgname, _), wr in zip((("default", None), ("full", FULL_CONFIG)), wres):
+    for (cfgname, _, _), wr in zip(CONFIGS, wres):
         for x, o in zip(plan[cfgname], wr["res"]["results"]):
             p, d, sp, proto, meth, reqb, tls = x
             records.append({"cfg": cfgname, "path": p, "sel": sel_of(p), "data": d, "special": sp, "proto": proto,
@@ -586,7 +645,7 @@ def run(tier):
         parts.append((key[0],) + file_part(fi, key, recs))
     bundles = []
     bundle_recs = []
-    for cfgname in ("default", "full"):
+    for cfgname in ("default", "full", "live"):
         cur = None
         for c, defs, weight, groups in sorted([p for p in parts if p[0] == cfgname], key=lambda p: -p[2]):
             if cur is None or cur["w"] + weight > 70000:
@@ -599,7 +658,7 @@ def run(tier):
     jobs_k = []
     for bi, (cfgname, cur) in enumerate(bundles):
         gs = [g for g in ("doc", "wapt", "wapr") if cur["groups"][g]]
-        jobs_k.append({"name": f"k_e2e_{bi}", "imports": IMPORTS, "local_modules": [f"C04T_{cfgname}"],
+        jobs_k.append({"name": f"k_e2e_{bi}", "imports": IMPORTS, "local_modules": ["C04T_full" if cfgname == "full" else "C04T_default"],
                        "pre": "".join(cur["defs"]), "evals": [(CHK[g], [c for c, _ in cur["groups"][g]]) for g in gs]})
         bundle_recs.append([[r for _, r in cur["groups"][g]] for g in gs] + [gs])
     bigpre = coq_def("blk", blk) + "Definition d_big : list N := big_doc blk %d %d.\n" % (BIG_REPS, BIG_TAIL)
@@ -608,7 +667,7 @@ def run(tier):
         v = zlib.adler32(out)
         bp = BPROTO[r["proto"]]
         case = f"((({bp}, HFile), {coq_str(r['sel'])}), (d_big, ({len(out)}, ({v & 0xffff}, {v >> 16}))))"
-        jobs_k.append({"name": f"k_big_{i}", "imports": IMPORTS, "local_modules": [f"C04T_{r['cfg']}"], "pre": bigpre,
+        jobs_k.append({"name": f"k_big_{i}", "imports": IMPORTS, "local_modules": ["C04T_full" if r["cfg"] == "full" else "C04T_default"], "pre": bigpre,
                        "evals": [(CHK["dig"], [case])]})
         bundle_recs.append([[r], ["dig"]])
     kres = coqmulti.run_bundles("C04", jobs_k) if not kerrs else []
@@ -655,7 +714,8 @@ def run(tier):
     cov["rule"] = ("component: html.escape/unescape, str(int), posixpath.splitext on seeded strings; mimetypes.guess_type and "
                    "populatefromfs exhaustively over every extension of the loaded tables x case variants x encodings; end to end: "
                    "files of sizes around every multiple of the 4096-byte block up to 12289 plus 1 MiB, binary/CRLF/invalid UTF-8/"
-                   "whitespace/markup contents, awkward names, through 9 protocol syntaxes + HEAD, default and full handler lists, "
+                   "whitespace/markup contents, awkward names, through 9 protocol syntaxes + HEAD, default and full handler lists, and through "
+                   "the real ThreadingTCPServer with real TLS clients (live leg), "
                    "served over a real socket; non-trivial = non-empty file / string with a special character / name with a known type")
     for name, detail in kbroken:
         chk.correspondence_broken(name, detail, found)
@@ -664,7 +724,7 @@ def run(tier):
         "WAP text conversion is modelled on code points: file and response are decoded with CPython's UTF-8/surrogateescape codec before comparison",
         "'losslessly invertible line by line' is read as: the WML decodes to the document's lines with trailing whitespace removed (the code right-strips every line)",
         "Last-Modified values are masked; time formatting is not modelled",
-        "mimetypes tables are taken from the running interpreter after init_mimetypes (defaults + conf/mime.types + [pygopherd] encoding)",
+        "MIME tables of the model and of the search are the documented ones: a fresh interpreter's mimetypes after the library's own init() on the configured files, with the [pygopherd] encoding option evaluated as written; the tables init_mimetypes leaves in the running interpreter are compared with them",
         "guess_type is modelled for selectors (always start with '/': no URL scheme); str.lower is exact on ASCII, U+212A and U+0130, table keys are ASCII (checked)",
         "subprocess decompression and TAL expansion are external: the model takes their output as given (gzip plain text known to the harness; TAL output = what plain Gopher delivered)",
         "1 MiB documents are compared through (length, Adler-32) inside Coq and byte for byte by the search",
@@ -679,7 +739,7 @@ def replay(path):
         print("replay: not a replayable document case (see the file for the input)")
         return 2
     cfg = FULL_CONFIG if rep["world"]["config"] == "full" else None
-    res = impl_run([{"op": "c04_world", "tree": rep["world"]["tree"], "config": cfg,
+    res = impl_run([{"op": "c04_live" if rep["world"]["config"] == "live" else "c04_world", "tree": rep["world"]["tree"], "config": cfg,
                      "requests": [{"data": rep["request_latin1"], "tls": rep["tls"]}]}])
     if not res[0]["ok"]:
         print(res[0]["err"])
